@@ -673,3 +673,47 @@ package gomavlib
 //@   requires e != nil
 //@   ensures  err == nil && e.rwc == e.conf.ReadWriteCloser
 //@   modifies e.rwc
+
+// ---------------------------------------------------------------- endpoint configurations build an endpoint of their own kind
+
+//@ func (EndpointTCPServer).init returns (ep, err)
+//@   ghostlog (*gomavlib.endpointServer).initialize
+//@   ensures  [endpoint-of-its-own-kind-bound-to-the-node] dynIs(ep, "*gomavlib.endpointServer") && ep.(*endpointServer).node == node && dynIs(ep.(*endpointServer).conf, "gomavlib.EndpointTCPServer")
+//@   ensures  [initialised-once] logLen() == 1 && logCallee(0, "(*gomavlib.endpointServer).initialize") && logArgIsPtr(0, 0, ep.(*endpointServer)) && err == logRetErr(0)
+//@   modifies ghost:log
+
+//@ func (EndpointUDPServer).init returns (ep, err)
+//@   ghostlog (*gomavlib.endpointServer).initialize
+//@   ensures  [endpoint-of-its-own-kind-bound-to-the-node] dynIs(ep, "*gomavlib.endpointServer") && ep.(*endpointServer).node == node && dynIs(ep.(*endpointServer).conf, "gomavlib.EndpointUDPServer")
+//@   ensures  [initialised-once] logLen() == 1 && logCallee(0, "(*gomavlib.endpointServer).initialize") && logArgIsPtr(0, 0, ep.(*endpointServer)) && err == logRetErr(0)
+//@   modifies ghost:log
+
+//@ func (EndpointTCPClient).init returns (ep, err)
+//@   ghostlog (*gomavlib.endpointClient).initialize
+//@   ensures  [endpoint-of-its-own-kind-bound-to-the-node] dynIs(ep, "*gomavlib.endpointClient") && ep.(*endpointClient).node == node && dynIs(ep.(*endpointClient).conf, "gomavlib.EndpointTCPClient")
+//@   ensures  [initialised-once] logLen() == 1 && logCallee(0, "(*gomavlib.endpointClient).initialize") && logArgIsPtr(0, 0, ep.(*endpointClient)) && err == logRetErr(0)
+//@   modifies ghost:log
+
+//@ func (EndpointUDPClient).init returns (ep, err)
+//@   ghostlog (*gomavlib.endpointClient).initialize
+//@   ensures  [endpoint-of-its-own-kind-bound-to-the-node] dynIs(ep, "*gomavlib.endpointClient") && ep.(*endpointClient).node == node && dynIs(ep.(*endpointClient).conf, "gomavlib.EndpointUDPClient")
+//@   ensures  [initialised-once] logLen() == 1 && logCallee(0, "(*gomavlib.endpointClient).initialize") && logArgIsPtr(0, 0, ep.(*endpointClient)) && err == logRetErr(0)
+//@   modifies ghost:log
+
+//@ func (EndpointSerial).init returns (ep, err)
+//@   ghostlog (*gomavlib.endpointSerial).initialize
+//@   ensures  [endpoint-of-its-own-kind-bound-to-the-node] dynIs(ep, "*gomavlib.endpointSerial") && ep.(*endpointSerial).node == node && ep.(*endpointSerial).conf == conf
+//@   ensures  [initialised-once] logLen() == 1 && logCallee(0, "(*gomavlib.endpointSerial).initialize") && logArgIsPtr(0, 0, ep.(*endpointSerial)) && err == logRetErr(0)
+//@   modifies ghost:log
+
+//@ func (EndpointCustom).init returns (ep, err)
+//@   ghostlog (*gomavlib.endpointCustom).initialize
+//@   ensures  [endpoint-of-its-own-kind-bound-to-the-node] dynIs(ep, "*gomavlib.endpointCustom") && ep.(*endpointCustom).node == node && ep.(*endpointCustom).conf == conf
+//@   ensures  [initialised-once] logLen() == 1 && logCallee(0, "(*gomavlib.endpointCustom).initialize") && logArgIsPtr(0, 0, ep.(*endpointCustom)) && err == logRetErr(0)
+//@   modifies ghost:log
+
+//@ func (EndpointUDPBroadcast).init returns (ep, err)
+//@   ghostlog (*gomavlib.endpointUDPBroadcast).initialize
+//@   ensures  [endpoint-of-its-own-kind-bound-to-the-node] dynIs(ep, "*gomavlib.endpointUDPBroadcast") && ep.(*endpointUDPBroadcast).node == node && ep.(*endpointUDPBroadcast).conf == conf
+//@   ensures  [initialised-once] logLen() == 1 && logCallee(0, "(*gomavlib.endpointUDPBroadcast).initialize") && logArgIsPtr(0, 0, ep.(*endpointUDPBroadcast)) && err == logRetErr(0)
+//@   modifies ghost:log
